@@ -3,11 +3,15 @@ package main
 // Property driver: govc check -prop Cxx [-tier quick|thorough]
 
 import (
+	"bytes"
+	"context"
 	"encoding/json"
 	"flag"
 	"fmt"
 	"os"
+	"os/exec"
 	"path/filepath"
+	"regexp"
 	"sort"
 	"strconv"
 	"strings"
@@ -21,6 +25,19 @@ type PropSpec struct {
 	Claim  string   `json:"claim"`
 	Extra  []string `json:"extra_funcs"` // functions verified for this property besides those tagged with props
 	Replay string   `json:"replay"`      // optional replay driver name
+	// bounded stand-ins: exhaustive runs of the real function over a stated
+	// finite input space, for code the verifier cannot reach (floating point);
+	// reported apart from the proved obligations and never counted as proved
+	Bounded []BoundedSpec `json:"bounded"`
+}
+
+type BoundedSpec struct {
+	Name      string `json:"name"`       // obligation-like name
+	Pkg       string `json:"pkg"`        // package directory (relative to the repository) the test is injected into
+	File      string `json:"file"`       // test file under /verif/bounded/
+	Run       string `json:"run"`        // test name
+	Bound     string `json:"bound"`      // the input space, in words
+	ThoroughX string `json:"thorough_x"` // value of VERIF_BOUND_SCALE in the thorough tier
 }
 
 type knownFinding struct {
@@ -290,8 +307,40 @@ func cmdCheck(args []string) {
 		}
 	}
 	sort.Strings(missing)
+	// an obligation that discharged on the pinned tree and is not generated any
+	// more (call site, loop or whole function gone): what it established is no
+	// longer established
+	byFunc := map[string][]string{}
+	var fnOrder []string
+	genBase := map[string]bool{}
+	for n := range generated {
+		genBase[clauseBase(n)] = true
+	}
 	for _, m := range missing {
 		outLines = append(outLines, "MISSING-OBLIGATION "+m)
+		if genBase[clauseBase(m)] {
+			// the clause is still checked at other sites: the code changed shape
+			// (a return, back edge or dereference went away), nothing is lost
+			continue
+		}
+		k := m
+		if i := strings.Index(m, "/"); i > 0 {
+			k = m[:i]
+		}
+		if byFunc[k] == nil {
+			fnOrder = append(fnOrder, k)
+		}
+		byFunc[k] = append(byFunc[k], m)
+	}
+	for _, k := range fnOrder {
+		file := filepath.Join(rdir, sanitizeFile(k)+".missing.txt")
+		why := "the function still exists but these obligations are not generated from the current source (the call site, loop or return they were attached to is gone)"
+		if missingFuncs[k] {
+			why = "the function under contract does not exist in the current source"
+		}
+		os.WriteFile(file, []byte(fmt.Sprintf("property: %s\nfunction: %s\n%s\nobligations discharged on the pinned tree and missing now:\n  %s\n", *prop, k, why, strings.Join(byFunc[k], "\n  "))), 0o644)
+		outLines = append(outLines, fmt.Sprintf("VIOLATION property=%s replay=%s obligation=%s (and %d more) status=missing no-failing-input-found", *prop, file, byFunc[k][0], len(byFunc[k])-1))
+		violations++
 	}
 	if nObl == 0 {
 		problems = append(problems, "no obligations generated")
@@ -307,6 +356,24 @@ func cmdCheck(args []string) {
 		lock[*prop] = names
 		d, _ := json.MarshalIndent(lock, "", " ")
 		os.WriteFile(lockFile, append(d, '\n'), 0o644)
+	}
+
+	var boundedEv []map[string]interface{}
+	for _, b := range ps.Bounded {
+		res := runBounded(*repo, vdir, rdir, *tier, b)
+		boundedEv = append(boundedEv, res.ev)
+		if res.fail {
+			file := filepath.Join(rdir, sanitizeFile(b.Name)+".bounded.txt")
+			os.WriteFile(file, []byte(res.out), 0o644)
+			if kf := isKnown(b.Name); kf != nil {
+				outLines = append(outLines, fmt.Sprintf("KNOWN-FINDING: property=%s %s (%s)", *prop, kf.What, b.Name))
+			} else {
+				outLines = append(outLines, fmt.Sprintf("VIOLATION property=%s replay=%s obligation=%s status=bounded-counterexample (failing input printed by the real code)", *prop, file, b.Name))
+				violations++
+			}
+		} else if res.broken {
+			problems = append(problems, "bounded check "+b.Name+" did not run: "+firstLine(res.out))
+		}
 	}
 
 	level := ps.Level
@@ -336,23 +403,24 @@ func cmdCheck(args []string) {
 	}
 	sort.Strings(funcsUnder)
 	cov := map[string]interface{}{
-		"obligations":          nObl,
-		"discharged":           nDis,
-		"checker_cmd":          fmt.Sprintf("bin/govc check -prop %s -tier %s (z3-new|cvc5|z3 raced per obligation, %ds limit)", *prop, *tier, timeout),
-		"trusted_base":         tb,
-		"samples":              samples,
+		"obligations":              nObl,
+		"discharged":               nDis,
+		"checker_cmd":              fmt.Sprintf("bin/govc check -prop %s -tier %s (z3-new|cvc5|z3 raced per obligation, %ds limit)", *prop, *tier, timeout),
+		"trusted_base":             tb,
+		"samples":                  samples,
 		"functions_under_contract": funcsUnder,
-		"obligation_list":      evs,
-		"solver_ms_total":      solverMs,
-		"load_s":               loadS,
-		"missing_obligations":  missing,
-		"machinery_problems":   problems,
-		"known_findings_printed": countPrefix(outLines, "KNOWN-FINDING"),
-		"vacuity":              fmt.Sprintf("%d cover queries unsat (must be 0); every function has an entry cover and a cover per return site", vacuous),
-		"explanation":          explanation(ps),
-		"evaluations":          nObl,
-		"distinct_nontrivial":  nDis,
-		"rule":                 "one SMT query per labelled obligation (ensures per return site, requires per call site, loop invariant init/preserve, modifies frame); distinct_nontrivial counts obligations discharged as unsat",
+		"obligation_list":          evs,
+		"solver_ms_total":          solverMs,
+		"load_s":                   loadS,
+		"missing_obligations":      missing,
+		"machinery_problems":       problems,
+		"known_findings_printed":   countPrefix(outLines, "KNOWN-FINDING"),
+		"vacuity":                  fmt.Sprintf("%d cover queries unsat (must be 0); every function has an entry cover and a cover per return site", vacuous),
+		"explanation":              explanation(ps),
+		"evaluations":              nObl,
+		"distinct_nontrivial":      nDis,
+		"bounded_checks":           boundedEv,
+		"rule":                     "one SMT query per labelled obligation (ensures per return site, requires per call site, loop invariant init/preserve, modifies frame); distinct_nontrivial counts obligations discharged as unsat",
 	}
 	ev := map[string]interface{}{
 		"property_id": *prop, "tier": *tier, "seed": seed, "level": level, "coverage": cov,
@@ -413,26 +481,92 @@ func explanation(ps *PropSpec) string {
 // suffix) is claimed in the lock file or recorded as a finding; a new failing
 // site of such a clause is a violation, not an unclaimed obligation.
 func knownBase(name string, locked map[string]bool, known []knownFinding, prop string) bool {
-	base := func(n string) string {
-		if k := strings.IndexAny(n, "@#"); k >= 0 {
-			// keep call[...#k] intact: cut only after the last ']'
-			if j := strings.LastIndex(n, "]"); j >= 0 && j < len(n)-1 {
-				return n[:j+1]
-			}
-			_ = k
-		}
-		return n
-	}
-	b := base(name)
+	b := clauseBase(name)
 	for n := range locked {
-		if base(n) == b {
+		if clauseBase(n) == b {
 			return true
 		}
 	}
 	for _, kf := range known {
-		if kf.Prop == prop && base(kf.Obligation) == b {
+		if kf.Prop == prop && clauseBase(kf.Obligation) == b {
 			return true
 		}
 	}
 	return false
+}
+
+var (
+	reRetSite  = regexp.MustCompile(`@return\[\d+\]`)
+	rePreserve = regexp.MustCompile(`/(preserve(#\d+)?|init)$`)
+	reSafeOrd  = regexp.MustCompile(`(safe|guarded)\[([A-Za-z0-9_-]+)#\d+\]`)
+	reDupOrd   = regexp.MustCompile(`~\d+$`)
+)
+
+// clauseBase maps an obligation name to the contract clause it instantiates:
+// return-site, back-edge, safety-site and duplicate ordinals are dropped (they
+// follow the shape of the code); call ordinals of at-call assertions are part
+// of the contract text and are kept.
+func clauseBase(n string) string {
+	n = reDupOrd.ReplaceAllString(n, "")
+	n = reRetSite.ReplaceAllString(n, "")
+	n = rePreserve.ReplaceAllString(n, "")
+	n = reSafeOrd.ReplaceAllString(n, "$1[$2]")
+	return n
+}
+
+type boundedResult struct {
+	ev     map[string]interface{}
+	fail   bool
+	broken bool
+	out    string
+}
+
+// runBounded injects the bounded-check test file into the package (go test
+// -overlay: nothing is written to the repository) and runs it on the real code.
+// The test prints "BOUNDED-CASES n" and, for a counterexample, "BOUNDED-FAIL ...".
+func runBounded(repo, vdir, rdir, tier string, b BoundedSpec) boundedResult {
+	t0 := time.Now()
+	pkgDir := filepath.Join(repo, b.Pkg)
+	src := filepath.Join(vdir, "bounded", b.File)
+	ov := map[string]map[string]string{"Replace": {filepath.Join(pkgDir, "zz_verif_bounded_test.go"): src}}
+	ovj, _ := json.Marshal(ov)
+	ovFile := filepath.Join(rdir, sanitizeFile(b.Name)+".bounded.overlay.json")
+	os.WriteFile(ovFile, ovj, 0o644)
+	ctx, cancel := context.WithTimeout(context.Background(), 30*time.Minute)
+	defer cancel()
+	cmd := exec.CommandContext(ctx, "go", "test", "-overlay", ovFile, "-vet=off", "-timeout", "25m", "-count=1", "-run", "^"+b.Run+"$", "-v", ".")
+	cmd.Dir = pkgDir
+	scale := "1"
+	if tier == "thorough" && b.ThoroughX != "" {
+		scale = b.ThoroughX
+	}
+	cmd.Env = append(os.Environ(), "GOFLAGS=-mod=mod", "GOPROXY=off", "GOSUMDB=off", "GOTOOLCHAIN=local", "VERIF_BOUND_SCALE="+scale)
+	var ob bytes.Buffer
+	cmd.Stdout = &ob
+	cmd.Stderr = &ob
+	err := cmd.Run()
+	out := ob.String()
+	cases := 0
+	for _, l := range strings.Split(out, "\n") {
+		l = strings.TrimSpace(l)
+		if strings.HasPrefix(l, "BOUNDED-CASES ") {
+			fmt.Sscanf(strings.TrimPrefix(l, "BOUNDED-CASES "), "%d", &cases)
+		}
+	}
+	fail := strings.Contains(out, "BOUNDED-FAIL")
+	broken := !fail && (err != nil || cases == 0)
+	status := "held on every case"
+	if fail {
+		status = "counterexample"
+	} else if broken {
+		status = "did not run"
+	}
+	if len(out) > 6000 {
+		out = out[:3000] + "\n...\n" + out[len(out)-3000:]
+	}
+	return boundedResult{
+		ev: map[string]interface{}{"name": b.Name, "kind": "bounded (not a proof)", "bound": b.Bound, "scale": scale, "cases": cases, "status": status,
+			"wall_s": time.Since(t0).Seconds(), "test": filepath.Join("bounded", b.File) + ":" + b.Run},
+		fail: fail, broken: broken, out: out,
+	}
 }
